@@ -3,7 +3,8 @@
 Decided on the pure-Python reference implementation falcon/util/uri.py (the
 Cython twin is not analysed).  Tables are *computed* from the source by a tiny
 concrete evaluator over constants (string/bytes/int/dict expressions, loops
-over constants, comprehensions) - nothing from the repository is imported or
+over constants, comprehensions, the module-level statements that fill a table
+in place - `_module_value`) - nothing from the repository is imported or
 executed - and compared with RFC 3986; control-flow clauses are dominance /
 reachability queries on the CFG, or path facts computed by a small forward
 dataflow (`_forward` / `_restrict`: what a branch outcome says about the
@@ -65,11 +66,13 @@ class _Ev:
     """Evaluates a small side-effect-free language over constants.  Anything
     outside it raises UnknownIdiom (the check is broken, nobody is accused)."""
 
-    def __init__(self, project, func: Func, budget=600000):
+    def __init__(self, project, func: Func, budget=600000, genv=None):
         self.p = project
         self.f = func
         self.m = func.module
         self.budget = budget
+        self.genv = genv if genv is not None else {}     # module-level names bound by evaluated top-level statements
+        self._lazy: Set[str] = set()                     # module constants being evaluated on demand (cycle guard)
 
     def _tick(self, node):
         self.budget -= 1
@@ -81,7 +84,7 @@ class _Ev:
 
     # ------------------------------------------------------------ statements
     def call_func(self, func: Func, args: list):
-        sub = _Ev(self.p, func, self.budget)
+        sub = _Ev(self.p, func, self.budget, self.genv if func.module is self.m else None)
         a = func.node.args
         names = [x.arg for x in a.posonlyargs + a.args]
         if a.vararg or a.kwarg or a.kwonlyargs or len(args) > len(names):
@@ -137,6 +140,46 @@ class _Ev:
             cur = self.expr(ast.Name(id=s.target.id, ctx=ast.Load()), env)
             env[s.target.id] = self.binop(s.op, cur, self.expr(s.value, env), s)
             return
+        if isinstance(s, ast.AugAssign) and isinstance(s.target, ast.Subscript) and isinstance(s.target.value, ast.Name):
+            box = self.mutable(s.target.value, env)
+            k = self.expr(s.target.slice, env)
+            try:
+                box[k] = self.binop(s.op, box[k], self.expr(s.value, env), s)
+            except (KeyError, IndexError, TypeError) as ex:
+                self.bad(s, '(%s)' % type(ex).__name__)
+            return
+        if isinstance(s, ast.Delete):
+            for t in s.targets:
+                if isinstance(t, ast.Name):
+                    if t.id in env:
+                        del env[t.id]
+                    elif env is not self.genv:
+                        self.bad(s, '(del of an unbound name)')
+                elif isinstance(t, ast.Subscript) and isinstance(t.value, ast.Name):
+                    box = self.mutable(t.value, env)
+                    try:
+                        del box[self.expr(t.slice, env)]
+                    except (KeyError, IndexError, TypeError) as ex:
+                        self.bad(s, '(%s)' % type(ex).__name__)
+                else:
+                    self.bad(s, '(del target)')
+            return
+        if isinstance(s, ast.Assert):
+            return          # says nothing about what is built
+        if isinstance(s, ast.While):
+            broke = False
+            while self.expr(s.test, env):
+                self._tick(s)
+                try:
+                    self.block(s.body, env)
+                except _Break:
+                    broke = True
+                    break
+                except _Continue:
+                    continue
+            if not broke:
+                self.block(s.orelse, env)
+            return
         if isinstance(s, ast.If):
             self.block(s.body if self.expr(s.test, env) else s.orelse, env)
             return
@@ -166,14 +209,32 @@ class _Ev:
                 self.bad(t)
             for te, ve in zip(t.elts, vs):
                 self.store(te, ve, env)
-        elif isinstance(t, ast.Subscript) and isinstance(t.value, ast.Name) and isinstance(env.get(t.value.id), (dict, list)):
-            env[t.value.id][self.expr(t.slice, env)] = v
+        elif isinstance(t, ast.Subscript) and isinstance(t.value, ast.Name):
+            box = self.mutable(t.value, env)
+            try:
+                box[self.expr(t.slice, env)] = v
+            except (IndexError, TypeError) as ex:
+                self.bad(t, '(%s)' % type(ex).__name__)
         else:
             self.bad(t, '(store target)')
 
+    def mutable(self, name_node, env):
+        """The dict/list a name is bound to by an evaluated statement (never a folded constant: those are shared)."""
+        for scope in (env, self.genv):
+            if name_node.id in scope:
+                if isinstance(scope[name_node.id], (dict, list)):
+                    return scope[name_node.id]
+                break
+        self.bad(name_node, '(not a dict/list built by the evaluated statements)')
+
     def iterate(self, it, node):
-        if isinstance(it, (str, bytes, tuple, list, range, frozenset, dict)):
+        if isinstance(it, (str, bytes, tuple, list, range, dict)):
             return list(it)
+        if isinstance(it, frozenset):
+            try:
+                return sorted(it)
+            except TypeError:
+                return list(it)
         self.bad(node, '(iterable)')
 
     # ----------------------------------------------------------- expressions
@@ -189,6 +250,16 @@ class _Ev:
                 return l - r
             if isinstance(op, ast.BitOr):
                 return l | r
+            if isinstance(op, ast.BitAnd):
+                return l & r
+            if isinstance(op, ast.BitXor):
+                return l ^ r
+            if isinstance(op, ast.FloorDiv):
+                return l // r
+            if isinstance(op, ast.RShift):
+                return l >> r
+            if isinstance(op, ast.LShift) and isinstance(r, int) and r < 64:
+                return l << r
         except Exception as e:
             self.bad(node, '(%s)' % type(e).__name__)
         self.bad(node, '(operator)')
@@ -200,11 +271,20 @@ class _Ev:
         if isinstance(e, ast.Name):
             if e.id in env:
                 return env[e.id]
+            if e.id in self.genv:
+                return self.genv[e.id]
             v = self.p.fold(self.m, e, None, None)
             if v is UNKNOWN:
                 q = self.p.resolve_expr(self.m, e, None)
                 if q in self.p.funcs:
                     return ('func', self.p.funcs[q])
+                # a module constant the folder does not read (a comprehension, a call): evaluate its one binding on demand
+                if e.id in self.m.consts and e.id not in self._lazy and _bound_once(self.m, e.id):
+                    self._lazy.add(e.id)
+                    try:
+                        return self.expr(self.m.consts[e.id], {})
+                    finally:
+                        self._lazy.discard(e.id)
                 self.bad(e, '(unbound name)')
             return v
         if isinstance(e, ast.BinOp):
@@ -261,12 +341,24 @@ class _Ev:
                 l = r
             return True
         if isinstance(e, (ast.Tuple, ast.List, ast.Set)):
-            vs = [self.expr(x, env) for x in e.elts]
+            vs = []
+            for x in e.elts:
+                if isinstance(x, ast.Starred):
+                    vs.extend(self.iterate(self.expr(x.value, env), x))
+                else:
+                    vs.append(self.expr(x, env))
             return tuple(vs) if isinstance(e, ast.Tuple) else (vs if isinstance(e, ast.List) else frozenset(vs))
         if isinstance(e, ast.Dict):
-            if any(k is None for k in e.keys):
-                self.bad(e)
-            return {self.expr(k, env): self.expr(v, env) for k, v in zip(e.keys, e.values)}
+            out = {}
+            for k, v in zip(e.keys, e.values):
+                if k is None:
+                    d = self.expr(v, env)
+                    if not isinstance(d, dict):
+                        self.bad(e, '(** of a non-dict)')
+                    out.update(d)
+                else:
+                    out[self.expr(k, env)] = self.expr(v, env)
+            return out
         if isinstance(e, ast.Subscript):
             v = self.expr(e.value, env)
             try:
@@ -309,6 +401,9 @@ class _Ev:
             v = self.p.fold(self.m, e, None, None)
             if v is not UNKNOWN:
                 return v
+            q = self.p.resolve_expr(self.m, e, None)
+            if q in _STDLIB_CONSTS:
+                return _STDLIB_CONSTS[q]
             self.bad(e, '(attribute)')
         if isinstance(e, ast.Call):
             return self.call(e, env)
@@ -341,41 +436,207 @@ class _Ev:
         return results
 
     def call(self, e, env):
-        if e.keywords and not (isinstance(e.func, ast.Attribute) and e.func.attr in ('format', 'encode')):
-            self.bad(e, '(keywords)')
-        if any(isinstance(a, ast.Starred) for a in e.args):
+        if any(isinstance(a, ast.Starred) for a in e.args) or any(k.arg is None for k in e.keywords):
             self.bad(e, '(starred)')
-        args = [self.expr(a, env) for a in e.args]
         f = e.func
+        q = None
+        base = _base_name(f)
+        if base is not None and base not in env and base not in self.genv:
+            q = self.p.resolve_expr(self.m, f, None)
+        if e.keywords and not (isinstance(f, ast.Attribute) and f.attr in ('format', 'encode', 'decode', 'to_bytes')) and q not in _KW_CALLS:
+            self.bad(e, '(keywords)')
+        args = [self.expr(a, env) for a in e.args]
+        kw = {k.arg: self.expr(k.value, env) for k in e.keywords}
         try:
-            if isinstance(f, ast.Name) and f.id not in env:
-                q = self.p.resolve_expr(self.m, f, None)
-                table = {'builtins.chr': chr, 'builtins.ord': ord, 'builtins.int': int, 'builtins.bytes': bytes, 'builtins.str': str,
-                         'builtins.len': len, 'builtins.range': range, 'builtins.format': format, 'builtins.bool': bool,
-                         'builtins.frozenset': frozenset, 'builtins.set': frozenset, 'builtins.tuple': tuple, 'builtins.list': list,
-                         'builtins.dict': dict, 'builtins.hex': hex}
-                if q in table:
-                    return table[q](*args)
+            if q in _PURE_CALLS:
+                return _PURE_CALLS[q](*args, **kw)
+            if isinstance(f, ast.Name) and q is not None:
                 if q in self.p.funcs:
                     return self.call_func(self.p.funcs[q], args)
                 self.bad(e, '(callee)')
             if isinstance(f, ast.Attribute):
                 recv = self.expr(f.value, env)
-                kw = {k.arg: self.expr(k.value, env) for k in e.keywords if k.arg}
-                if isinstance(recv, str) and f.attr in ('format', 'upper', 'lower', 'encode', 'join', 'zfill', 'strip', 'rjust'):
+                if isinstance(recv, str) and f.attr in _STR_METHODS:
                     if f.attr == 'encode':
                         codec = args[0] if args else kw.get('encoding', 'utf-8')
                         if str(codec).lower().replace('_', '-') not in ('utf-8', 'utf8', 'ascii', 'latin-1', 'latin1'):
                             self.bad(e, '(codec)')
                         return recv.encode(codec)
                     return getattr(recv, f.attr)(*args, **kw)
-                if isinstance(recv, bytes) and f.attr in ('upper', 'lower', 'hex', 'join'):
+                if isinstance(recv, bytes) and f.attr in _BYTES_METHODS:
+                    if f.attr == 'decode':
+                        codec = args[0] if args else kw.get('encoding', 'utf-8')
+                        if str(codec).lower().replace('_', '-') not in ('utf-8', 'utf8', 'ascii', 'latin-1', 'latin1') or len(args) > 1 or 'errors' in kw:
+                            self.bad(e, '(codec)')
+                        return recv.decode(codec)
                     return getattr(recv, f.attr)(*args)
+                if isinstance(recv, int) and not isinstance(recv, bool) and f.attr == 'to_bytes':
+                    return recv.to_bytes(*args, **kw)
+                if isinstance(recv, dict) and f.attr in ('items', 'keys', 'values') and not args:
+                    return list(getattr(recv, f.attr)())
+                if isinstance(recv, dict) and f.attr in ('get', 'copy'):
+                    return getattr(recv, f.attr)(*args)
+                if isinstance(recv, (list, tuple)) and f.attr in ('index', 'count'):
+                    return getattr(recv, f.attr)(*args)
+                if isinstance(recv, list) and f.attr == 'copy' and not args:
+                    return list(recv)
+                # in-place construction: only on a dict/list the evaluated statements built themselves
+                if isinstance(recv, (dict, list)) and isinstance(f.value, ast.Name) and self.mutable(f.value, env) is recv:
+                    if isinstance(recv, dict) and f.attr in ('update', 'setdefault', '__setitem__', 'pop', 'clear'):
+                        return getattr(recv, f.attr)(*args)
+                    if isinstance(recv, list) and f.attr in ('append', 'extend', 'insert', 'pop', 'clear', 'reverse', 'sort'):
+                        return getattr(recv, f.attr)(*args)
             self.bad(e, '(call)')
         except UnknownIdiom:
             raise
         except Exception as ex:
             self.bad(e, '(%s: %s)' % (type(ex).__name__, ex))
+
+
+def _bound_once(m, name: str) -> bool:
+    """`name` is bound by exactly one top-level statement of the module and never mutated in place there."""
+    n = 0
+    for st in m.tree.body:
+        if isinstance(st, (ast.FunctionDef, ast.AsyncFunctionDef, ast.ClassDef)):
+            if st.name == name:
+                n += 1
+            continue
+        if name in _top_writes(st):
+            n += 1
+    return n == 1
+
+
+def _product(*its, repeat=1):
+    import itertools
+    return list(itertools.product(*its, repeat=repeat))
+
+
+def _chain(*its):
+    out = []
+    for it in its:
+        out.extend(it)
+    return out
+
+
+def _binascii(name):
+    import binascii
+    return getattr(binascii, name)
+
+
+def _struct_pack(fmt, *vals):
+    import struct
+    return struct.pack(fmt, *vals)
+
+
+# side-effect-free callables the evaluator may apply to constants
+_PURE_CALLS = {
+    'builtins.chr': chr, 'builtins.ord': ord, 'builtins.int': int, 'builtins.bytes': bytes, 'builtins.str': str,
+    'builtins.len': len, 'builtins.range': range, 'builtins.format': format, 'builtins.bool': bool,
+    'builtins.frozenset': frozenset, 'builtins.set': frozenset, 'builtins.tuple': tuple, 'builtins.list': list,
+    'builtins.dict': dict, 'builtins.hex': hex, 'builtins.zip': lambda *a: list(zip(*a)),
+    'builtins.enumerate': lambda it, start=0: list(enumerate(it, start)), 'builtins.sorted': lambda it: sorted(it),
+    'builtins.reversed': lambda it: list(reversed(it)), 'builtins.divmod': divmod, 'builtins.abs': abs, 'builtins.min': min,
+    'builtins.max': max, 'builtins.sum': sum, 'builtins.repr': repr, 'builtins.oct': oct, 'builtins.bin': bin,
+    'builtins.bytes.fromhex': bytes.fromhex, 'builtins.int.to_bytes': int.to_bytes, 'builtins.int.from_bytes': int.from_bytes,
+    'builtins.dict.fromkeys': dict.fromkeys, 'builtins.str.upper': str.upper, 'builtins.str.lower': str.lower,
+    'builtins.bytes.upper': bytes.upper, 'builtins.bytes.lower': bytes.lower, 'builtins.str.join': str.join,
+    'itertools.product': _product, 'itertools.chain': _chain,
+    'binascii.unhexlify': _binascii('unhexlify'), 'binascii.a2b_hex': _binascii('a2b_hex'),
+    'binascii.hexlify': _binascii('hexlify'), 'binascii.b2a_hex': _binascii('b2a_hex'),
+    'struct.pack': _struct_pack,
+}
+_KW_CALLS = ('itertools.product', 'builtins.int', 'builtins.int.to_bytes', 'builtins.int.from_bytes', 'builtins.enumerate', 'builtins.dict')
+_STR_METHODS = ('format', 'upper', 'lower', 'encode', 'join', 'zfill', 'strip', 'rjust', 'ljust', 'lstrip', 'rstrip', 'swapcase', 'casefold',
+                'title', 'capitalize', 'isalpha', 'isdigit', 'isalnum', 'isupper', 'islower', 'startswith', 'endswith', 'replace', 'split',
+                'index', 'find', 'count')
+_BYTES_METHODS = ('upper', 'lower', 'hex', 'join', 'decode', 'swapcase', 'zfill', 'rjust', 'title', 'capitalize', 'isalpha', 'isdigit',
+                  'isupper', 'islower', 'replace', 'startswith', 'endswith')
+_STDLIB_CONSTS = {
+    'string.hexdigits': '0123456789abcdefABCDEF', 'string.digits': '0123456789', 'string.octdigits': '01234567',
+    'string.ascii_lowercase': 'abcdefghijklmnopqrstuvwxyz', 'string.ascii_uppercase': 'ABCDEFGHIJKLMNOPQRSTUVWXYZ',
+    'string.ascii_letters': 'abcdefghijklmnopqrstuvwxyzABCDEFGHIJKLMNOPQRSTUVWXYZ',
+}
+_IN_PLACE = ('update', 'setdefault', '__setitem__', '__delitem__', 'pop', 'popitem', 'clear', 'append', 'extend', 'insert', 'remove',
+             'add', 'discard', 'sort', 'reverse')
+
+
+def _base_name(e) -> Optional[str]:
+    while isinstance(e, (ast.Subscript, ast.Attribute)):
+        e = e.value
+    return e.id if isinstance(e, ast.Name) else None
+
+
+def _top_writes(st) -> Set[str]:
+    """Module-level names a top-level statement binds, unbinds or may change in place
+    (item/attribute stores, mutating methods, being handed to a call made for its effect)."""
+    out: Set[str] = set()
+    if isinstance(st, (ast.FunctionDef, ast.AsyncFunctionDef, ast.ClassDef, ast.Import, ast.ImportFrom)):
+        return out
+    scoped = {id(y) for x in ast.walk(st) if isinstance(x, ast.comprehension) for y in ast.walk(x.target)}   # comprehension variables
+    for x in ast.walk(st):
+        if isinstance(x, ast.Name) and isinstance(x.ctx, (ast.Store, ast.Del)):
+            if id(x) not in scoped:
+                out.add(x.id)
+        elif isinstance(x, (ast.Subscript, ast.Attribute)) and isinstance(x.ctx, (ast.Store, ast.Del)):
+            b = _base_name(x)
+            if b:
+                out.add(b)
+        elif isinstance(x, ast.Call) and isinstance(x.func, ast.Attribute) and x.func.attr in _IN_PLACE and isinstance(x.func.value, ast.Name):
+            out.add(x.func.value.id)
+        elif isinstance(x, ast.Expr) and isinstance(x.value, ast.Call):
+            for a in list(x.value.args) + [k.value for k in x.value.keywords]:
+                if isinstance(a, ast.Name):
+                    out.add(a.id)
+    return out
+
+
+def _module_value(p, func: Func, name: str):
+    """The value a module-level name has once the module is imported: every
+    top-level statement that binds it, fills it in place, or builds something
+    those statements read (transitively) is evaluated, in source order, by the
+    constant evaluator.  UnknownIdiom when a statement of that slice is outside
+    the evaluator's language, or when a function of the module changes the
+    name later (global rebinding / in-place mutation): then import time is not
+    the whole story."""
+    m = func.module
+    body = list(m.tree.body)
+    writes = [(_top_writes(st), st) for st in body]
+    bound = set().union(*[w for (w, _s) in writes]) if writes else set()
+    if name not in bound:
+        raise AnchorError('%s.%s not found' % (m.name, name))
+    relevant = {name}
+    marked: Set[int] = set()
+    changed = True
+    while changed:
+        changed = False
+        for w, st in writes:
+            if id(st) in marked or not (w & relevant):
+                continue
+            marked.add(id(st))
+            changed = True
+            relevant |= w
+            relevant |= {x.id for x in ast.walk(st) if isinstance(x, ast.Name) and isinstance(x.ctx, ast.Load) and x.id in bound}
+    for g in m.functions.values():
+        stack = [g]
+        while stack:
+            h = stack.pop()
+            stack.extend(h.nested.values())
+            for x in ast.walk(h.node):
+                if isinstance(x, ast.Global) and name in x.names:
+                    raise UnknownIdiom('%s rebinds the module-level %s at run time' % (h.qual, name))
+                if (isinstance(x, (ast.Subscript, ast.Attribute)) and isinstance(x.ctx, (ast.Store, ast.Del)) and _base_name(x) == name) or (
+                        isinstance(x, ast.Call) and isinstance(x.func, ast.Attribute) and x.func.attr in _IN_PLACE
+                        and isinstance(x.func.value, ast.Name) and x.func.value.id == name):
+                    if name not in _stored_names(h.node):
+                        raise UnknownIdiom('%s changes the module-level %s in place at run time: %s' % (h.qual, name, short(x, 60)))
+    ev = _Ev(p, func)
+    env = ev.genv
+    for st in body:
+        if id(st) in marked:
+            ev.stmt(st, env)
+    if name not in env:
+        raise UnknownIdiom('%s.%s is unbound after the module body' % (m.name, name))
+    return env[name]
 
 
 # ---------------------------------------------------------------------------
@@ -1001,14 +1262,24 @@ def _hex_to_byte(run) -> Dict[bytes, bytes]:
     m = p.module(URI)
     if '_HEX_TO_BYTE' not in m.consts:
         raise AnchorError('%s._HEX_TO_BYTE not found' % URI)
-    ev = _Ev(p, p.func(URI + '.decode'))
-    t = ev.expr(m.consts['_HEX_TO_BYTE'], {})
-    if not isinstance(t, dict) or not t:
-        raise UnknownIdiom('_HEX_TO_BYTE is not a table')
-    return t
+    cache = getattr(run, '_c10_hexmap', None)
+    if cache is None:
+        cache = _module_value(p, p.func(URI + '.decode'), '_HEX_TO_BYTE')
+        run._c10_hexmap = cache
+    if not isinstance(cache, dict):
+        raise UnknownIdiom('_HEX_TO_BYTE is not a table (%s)' % type(cache).__name__)
+    return cache
 
 
 def r2_escape_shape(run):
+    """Escape shape of the encoder, and the decoder table: whatever way
+    `_HEX_TO_BYTE` is built at import time (comprehension, loops filling it,
+    update()/union of part tables, dict(zip()), a helper function), the value
+    it ends up with has exactly the 22 x 22 keys over [0-9A-Fa-f] (bytes), each
+    mapped to the byte of that value.  A readable construction with other keys
+    is a violation; only a construction outside the evaluator is exit 2.
+    W: a table filled from range(256) with '%02X' and '%02x' lacks b'aB':
+    decode('%aB') == '%aB', decode('%cF%80') == '%cF\ufffd'."""
     p = run.project
     fs = _factories(run)
     hexmap = _hex_to_byte(run)
@@ -1431,7 +1702,10 @@ def _feasible(cfg, assume):
 def r4_decoder_paths(run):
     p = run.project
     hexmap = _hex_to_byte(run)
-    klens = {len(k) for k in hexmap}
+    klens = {len(k) for k in hexmap if isinstance(k, (bytes, str))}
+    if len(klens) != 1:
+        raise UnknownIdiom('_HEX_TO_BYTE: the keys have no single length (%s): the token window of the decoder paths cannot be judged '
+                           '(R2 judges the key set)' % sorted(klens))
     klen = single(sorted(klens), 'key length of _HEX_TO_BYTE')
     m = p.module(URI)
     paths = {}
@@ -2246,7 +2520,80 @@ def _bracket_paths(f: Func, cfg, host: str):
     return state, opaque
 
 
+def _host_forms(p, f: Func, prov, e, nid: int, host: str, depth: int = 0) -> List[tuple]:
+    """What a host expression is, per definition reaching cfg node `nid`:
+    ('whole',) the parameter, ('slice', lo) host[lo:...], ('other',)."""
+    if isinstance(e, ast.IfExp):
+        return _host_forms(p, f, prov, e.body, nid, host, depth) + _host_forms(p, f, prov, e.orelse, nid, host, depth)
+    if isinstance(e, ast.Name):
+        if e.id == host:
+            return [('whole',)]
+        ds = prov.rd.at(nid, e.id)
+        if not ds or depth > 4:
+            return [('other',)]
+        out: List[tuple] = []
+        for d in ds:
+            if d.kind == 'assign':
+                out += _host_forms(p, f, prov, d.value, d.node, host, depth + 1)
+            elif d.kind == 'unpack' and prov.unpacked_item(d) is not None:
+                out += _host_forms(p, f, prov, prov.unpacked_item(d), d.node, host, depth + 1)
+            else:
+                out.append(('other',))
+        return out
+    sl = _slice_lower(p, f, e, host)
+    if sl is not None:
+        return [('slice', sl[0])]
+    return [('other',)]
+
+
+def _port_forms(p, f: Func, prov, e, nid: int, dflt: str, depth: int = 0, cond: bool = False) -> List[tuple]:
+    """What a port expression is, per definition reaching cfg node `nid`:
+    (kind, cfg node where it is computed, under a conditional expression) with
+    kind 'int' (int(<one argument>)), 'default' (the default-port parameter), 'other'."""
+    if isinstance(e, ast.IfExp):
+        return _port_forms(p, f, prov, e.body, nid, dflt, depth, True) + _port_forms(p, f, prov, e.orelse, nid, dflt, depth, True)
+    if isinstance(e, ast.Call) and p.resolve_callable(f, e.func) == 'builtins.int' and len(e.args) == 1 and not e.keywords:
+        return [('int', nid, cond)]
+    if isinstance(e, ast.Name):
+        ds = prov.rd.at(nid, e.id)
+        if e.id == dflt and ds and all(d.kind == 'param' for d in ds):
+            return [('default', nid, cond)]
+        if not ds or depth > 4:
+            return [('other', nid, cond)]
+        out: List[tuple] = []
+        for d in ds:
+            if d.kind == 'assign':
+                out += _port_forms(p, f, prov, d.value, d.node, dflt, depth + 1, cond)
+            elif d.kind == 'unpack' and prov.unpacked_item(d) is not None:
+                out += _port_forms(p, f, prov, prov.unpacked_item(d), d.node, dflt, depth + 1, cond)
+            else:
+                out.append(('other', nid, cond))
+        return out
+    return [('other', nid, cond)]
+
+
+_PIECE_METHODS = ('partition', 'rpartition', 'split', 'rsplit', 'removeprefix', 'removesuffix')
+
+
+def _piece_step(x) -> bool:
+    """A provenance step (kind, node, reason) that keeps a CONTIGUOUS piece of the text as it is:
+    text[a:b], text[i], an item of text.partition()/split(), text.removeprefix()."""
+    _kind, node, _why = x
+    if isinstance(node, ast.Subscript):
+        sl = node.slice
+        if isinstance(sl, ast.Slice):
+            return sl.step is None or (isinstance(sl.step, ast.Constant) and sl.step.value == 1)
+        return True
+    return isinstance(node, ast.Call) and isinstance(node.func, ast.Attribute) and node.func.attr in _PIECE_METHODS
+
+
 def r6_parse_host(run):
+    """parse_host splits, it does not normalise.  Besides the port / bracket
+    clauses: the host of every return is the parameter itself or a contiguous
+    piece of it (Provenance relative to the parameter: slices, partition/split
+    items; any other step - lower(), strip(), replace(), decode(), an encoder -
+    is a rewritten copy).  W: parse_host('Example.COM:8080')[0] == 'example.com'
+    but parse_host('Example.COM')[0] == 'Example.COM'."""
     p = run.project
     f = p.func(URI + '.parse_host')
     cfg = cfg_of(f, p)
@@ -2264,6 +2611,8 @@ def r6_parse_host(run):
     from .common import implied
     bracket, opaque = _bracket_paths(f, cfg, host)
     about_host = _derived_locals(f.node, {host}) | {host}
+    from .c15_helpers import Provenance
+    prov = Provenance(p, f, host, unpack_pieces=True)
     n_fail = 0
     for n in rets:
         v = n.ast.value
@@ -2271,25 +2620,41 @@ def r6_parse_host(run):
             raise UnknownIdiom('parse_host returns %s' % short(v, 60))
         h, port = v.elts
         where = '%s:%s' % (f.file, n.lineno)
-        is_int = isinstance(port, ast.Call) and p.resolve_callable(f, port.func) == 'builtins.int' and len(port.args) == 1
-        is_default = isinstance(port, ast.Name) and port.id == dflt
-        run.check(is_int or is_default, 'the port is an int() of the text after the separator, or the default', f, n.ast, where=where,
-                  runtime_witness="parse_host('example.org:8080')[1] == '8080'")
+        # the host handed back is text OF the authority: the parameter itself or a contiguous piece of it
+        o = prov.classify(h, n.id)
+        if not o.derived:
+            raise UnknownIdiom('parse_host: the host of %s is not built from the parameter %s' % (short(v, 60), host))
+        rewritten = [x for x in o.xforms if not _piece_step(x)]
+        run.check(not rewritten, 'the host returned is the text of the authority - the parameter itself or a contiguous piece of it (a slice, an '
+                  'item of a partition/split) - on every branch: never a case-folded, stripped, decoded or otherwise rewritten copy',
+                  f, n.ast, where=where, witness=['%s: %s (%s)' % (k, short(nd, 80), why) for (k, nd, why) in rewritten],
+                  runtime_witness="parse_host('Example.COM:8080') == ('example.com', 8080) while parse_host('Example.COM') == ('Example.COM', None): "
+                                  "the branches disagree about the same host")
+        # what the port expression is on each definition that reaches this return
+        pforms = _port_forms(p, f, prov, port, n.id, dflt)
+        run.check(all(k in ('int', 'default') for (k, _at, _c) in pforms), 'the port is an int() of the text after the separator, or the default',
+                  f, n.ast, where=where, runtime_witness="parse_host('example.org:8080')[1] == '8080'")
         # bracket facts on the paths to this return
         br = bracket.get(n.id)
         if not br:
             raise UnknownIdiom('parse_host: return %s is not reached over normal edges' % short(v, 60))
-        sl = _slice_lower(p, f, h, host)
-        strips = sl is not None and sl[0] not in (None, 0)
-        if br == frozenset({True}):
-            run.check(sl is not None and sl[0] == 1, 'a bracketed IPv6 host is returned without its brackets', f, n.ast, where=where,
-                      runtime_witness="parse_host('[::1]:80')[0] == '[::1]'")
+        # what the host expression is on each definition that reaches this return: the parameter, a slice host[lo:...], other
+        forms = _host_forms(p, f, prov, h, n.id, host)
+        strips = [fm for fm in forms if fm[0] == 'slice' and fm[1] not in (None, 0)]
+        if rewritten and any(fm[0] == 'other' for fm in forms):
+            pass        # already a violation; what a rewritten copy does to the brackets is not judged on top
+        elif br == frozenset({True}):
+            if any(fm[0] == 'other' for fm in forms):
+                raise UnknownIdiom('parse_host: the host of %s on the bracketed branch is neither the parameter nor a slice of it' % short(v, 60))
+            run.check(all(fm[0] == 'slice' and fm[1] == 1 for fm in forms), 'a bracketed IPv6 host is returned without its brackets',
+                      f, n.ast, where=where, runtime_witness="parse_host('[::1]:80')[0] == '[::1]'")
         elif br == frozenset({False}):
             run.check(not strips, 'only a bracketed host loses its first character', f, n.ast, where=where,
                       runtime_witness="parse_host('example.org')[0] == 'xample.org'")
         else:
             # nothing on the paths to this return says whether the host is bracketed
-            keeps_first = (isinstance(h, ast.Name) and h.id == host) or (sl is not None and sl[0] in (None, 0))
+            keeps_first = all(fm[0] == 'whole' or (fm[0] == 'slice' and fm[1] in (None, 0)) for fm in forms)
+            strips = len(strips) == len(forms)
             if not (keeps_first or strips):
                 raise UnknownIdiom('parse_host: return %s is not classified by host.startswith("[")' % short(v, 60))
             back = flow.co_reachable(cfg, [n.id])
@@ -2307,7 +2672,7 @@ def r6_parse_host(run):
                 run.fail("only a bracketed host loses its first character: this return strips it although no test on the way "
                          "establishes host.startswith('[')", f, n.ast, where=where, witness=wit,
                          runtime_witness="parse_host('example.org')[0] == 'xample.or'")
-        if is_int:
+        for (_k, at, conditional) in [pf for pf in pforms if pf[0] == 'int']:
             # a separator was found
             found = False
             unknown = None
@@ -2316,7 +2681,7 @@ def r6_parse_host(run):
                     continue
                 for a in [x for x in walk_self(t.ast) if _sep_atom(x, host) is not None]:
                     for (y, l) in cfg.succ[t.id]:
-                        if l in ('T', 'F') and flow.dominated_by_edge(cfg, n.id, (t.id, y, l)):
+                        if l in ('T', 'F') and flow.dominated_by_edge(cfg, at, (t.id, y, l)):
                             r = implied(t.ast, l == 'T', lambda e, a=a: e is a)
                             if r is None:
                                 unknown = t
@@ -2325,10 +2690,12 @@ def r6_parse_host(run):
                                 found = True
             if not found and unknown is not None:
                 raise UnknownIdiom('parse_host: test %s' % short(unknown.ast, 80))
+            if not found and conditional:
+                raise UnknownIdiom('parse_host: the int() port of %s is chosen by a conditional expression (was a port separator found?)' % short(v, 60))
             if not found:
                 # a test about the host that is read neither as a separator test nor as a bracket test
                 # may be what establishes the separator (host.count(':') == 1, ...)
-                back = flow.co_reachable(cfg, [n.id])
+                back = flow.co_reachable(cfg, [at])
                 for t in cfg.live_nodes():
                     if t.kind != 'test' or t.id not in back:
                         continue
@@ -2350,11 +2717,14 @@ def r6_parse_host(run):
 
 def check(run):
     run.assume('the pure-Python reference falcon/util/uri.py is what is decided; falcon/cyutil/uri.pyx is not analysed')
-    run.assume('tables are computed from the source by a constant evaluator (str/bytes/int/dict expressions, loops and comprehensions over constants)')
+    run.assume('tables are computed from the source by a constant evaluator (str/bytes/int/dict expressions, loops and comprehensions over constants); '
+               '_HEX_TO_BYTE is the value left by every top-level statement of falcon/util/uri.py that binds it, fills it in place or builds '
+               'something those statements read, evaluated in source order; no function of the module changes it afterwards')
     run.rule('R1', _safe(r1_alphabets), 'allowed alphabets vs RFC 3986 2.2/2.3; % and + excluded; per configuration: whatever reaches the output without passing '
              'through the char table (whole input, stripped tail) is over the allowed alphabet, % only after the already-escaped check accepted', floor=14)
     run.rule('R2', _safe(r2_escape_shape), "escape shape %XX upper-case over UTF-8 bytes; _HEX_TO_BYTE complete and inverse", floor=10)
     run.rule('R3', _safe(r3_bindings), 'public encoder bindings and their users', floor=12)
     run.rule('R4', _safe(r4_decoder_paths), 'the three decoder paths share one skeleton; plus handling; shortcut; the tokenisation at % is unbounded', floor=20)
     run.rule('R5', _safe(r5_check_escaped), 'check-escaped loop: for/else acceptance, hex digits, fall-through; no character-class test on a possibly empty slice', floor=8)
-    run.rule('R6', _safe(r6_parse_host), 'parse_host return shapes; brackets stripped on every path where host.startswith("[") is not excluded, and only there', floor=8)
+    run.rule('R6', _safe(r6_parse_host), 'parse_host return shapes; brackets stripped on every path where host.startswith("[") is not excluded, and only there; '
+             'the host returned is the parameter or a contiguous piece of it on every branch (no case folding / stripping / decoding)', floor=12)
